@@ -15,7 +15,16 @@ NAMESPACES = ['/', '/a', '/b']
 IDS = [None, None, 0, 0, 1, 1, 2, 7, 10, 10**20, 10**99]
 
 
+def classify_frames(w):
+    if w.get('class') == 'interleaved':
+        return 'concurrent-multi-frame-sends-interleave'
+    return None
+
+
 def classify(w):
+    k = classify_frames(w)
+    if k:
+        return k
     if w.get('class') == 'zero_attachment_binary':
         return 'zero-attachment-binary-never-dispatched'
     return None
@@ -130,7 +139,16 @@ class History:
         ctx = self.ctx
         hcalls = [e for e in res.get('events', []) if e[0] == 'handler']
         if res.get('decode_errors'):
-            return self.fail('server sent an undecodable frame', res)
+            cls = None
+            if self.kind == 'sync' and self.cfg['async_handlers'] and \
+                    res['op'][0] == 'burst' and \
+                    self.cfg['serializer'] == 'default':
+                # handler threads of one client answering at the same time
+                # with binary ACKs (several frames each)
+                cls = 'interleaved'
+            return self.fail('server sent an undecodable frame', res,
+                             {'decode_errors': res['decode_errors'][:3]},
+                             cls)
         if res.get('exc'):
             return self.fail('feeding a valid event raised %s' % res['exc'],
                              res)
